@@ -84,6 +84,13 @@ func (f *funcAssertionNode) BuildExpr(expr ast.Expr) ast.Expr {
 	if f.Root() == nil {
 		panic("f.BuildExpr should only be called on nodes present in a valid assertion tree")
 	}
+	if f.call != nil && f.Root().functionContext.functionConfig.EnableStructInitV2 {
+		// With -experimental-struct-init-v2, shallowEqNodes may distinguish function nodes by the
+		// positions of their source calls. A call expression rebuilt from the declaring identifier
+		// has a different position than the source call, so the node parsed from it would never
+		// match this node again (and ProcessEntry would never be able to detach this node).
+		return f.call
+	}
 	genFunc := func() ast.Expr {
 		if expr == nil {
 			return f.Root().GetDeclaringIdent(f.decl)
